@@ -63,6 +63,8 @@ def configs(tier):
         add(d=2, q=2, m=2, mode=mode, imputer='joint', storage='batch', labels=2)
         add(d=2, q=1, m=2, mode=mode, imputer='product', storage='interval', labels=2, bigger=True)
         add(d=2, q=1, m=2, mode=mode, imputer='joint', storage='batch', bigger=True)
+        for metric in ('MAE', 'MSE'):
+            add(d=2, q=2, m=2, mode=mode, imputer='joint', storage='batch', loss='river:' + metric)
         add(d=2, q=2, m=2, mode=mode, imputer='joint', storage='batch', loss_type='int')
         add(d=2, q=2, m=2, mode=mode, imputer='joint', storage='batch', loss_type='np')
         add(d=2, q=1, m=2, mode=mode, imputer='joint', storage='geometric', names='int')
